@@ -226,7 +226,7 @@ def on_crash(ex, st, ev, alg, pre, e):
     kind = "step-raised"
     active = len(set(pre["S"]) | set(pre["U"]) | (set(pre["P"]) if ex.fam == "vogp" else set()))
     extra = {"exc": type(e).__name__}
-    if Kf != m and ex.kind == "rect" and ex.fam == "paveba":
+    if Kf != m and ex.kind == "rect" and ex.fam == "paveba" and "Slackness must be" in str(e):
         kind = "rect-paveba-K-ne-m"
     elif bs > 1 and "empty sequence" in str(e):
         kind = "batch-exceeds-choices"
@@ -598,7 +598,7 @@ def run_real(unit, res, replay=None):
             except Exception as e:
                 kind = "step-raised"
                 W = np.eye(m) if spec is None else cones.W_of(spec)
-                if W.shape[0] != W.shape[1] and alg_name in ("PaVeBaGP-IH", "PartialGP-rect"):
+                if W.shape[0] != W.shape[1] and alg_name in ("PaVeBaGP-IH", "PartialGP-rect") and "Slackness must be" in str(e):
                     kind = "rect-paveba-K-ne-m"
                 elif cfg.get("batch_size", 1) > 1 and "empty sequence" in str(e):
                     kind = "batch-exceeds-choices"
